@@ -110,6 +110,7 @@ func genPlan(t *rapid.T) interface{} {
 	p.Mode = "snapshot"
 	p.Log = genSetup(t)
 	n := rapid.IntRange(1, 40).Draw(t, "n")
+	bias := metacmd.GenBias(t, "bias")
 	for i := 0; i < n; i++ {
 		l := fmt.Sprintf("c%d", i)
 		// bias to commands that edit nested slices in place
@@ -123,7 +124,7 @@ func genPlan(t *rapid.T) interface{} {
 		case 3:
 			p.Log = append(p.Log, metacmd.CmdSetPrivilege(rapid.SampledFrom([]string{"u0", "u1"}).Draw(t, l+".u"), "db0", rapid.IntRange(0, 3).Draw(t, l+".p")))
 		default:
-			p.Log = append(p.Log, metacmd.GenCmd(t, l))
+			p.Log = append(p.Log, metacmd.GenCmdBiased(t, l, bias))
 		}
 	}
 	ns := rapid.IntRange(1, 4).Draw(t, "nsnaps")
